@@ -1,6 +1,6 @@
 (* C02 - Auction proceeds clockwise from the dealer and ends exactly when it must.
    Only statements, each closed by [exact]; proofs are in the files imported below. *)
-From BE Require Import Model.Auction Spec.Laws Proofs.Auction.
+From BE Require Import Model.Auction Spec.Laws Gen.AuctionFns Proofs.Auction Proofs.AuctionGen Proofs.AuctionGenCor.
 Local Open Scope nat_scope.
 
 (* turn = dealer rotated by the number of accepted calls, none once ended; ended exactly when Law 22 says *)
@@ -58,4 +58,22 @@ Theorem C02_example_passed_out :
   /\ run (init South VBoth) [Pass; Pass; Pass; Pass; Pass] = [Ongoing; Ongoing; Ongoing; Finished; Raises].
 Proof. exact ex_passed_out. Qed.
 Print Assumptions C02_example_passed_out.
+
+(* for the functions regenerated from bidding_phase.py on every run *)
+Theorem C02_generated_model_is_hand_model :
+  forall s c, g_take_bid s c = take_bid s c.
+Proof. exact g_take_bid_eq. Qed.
+Print Assumptions C02_generated_model_is_hand_model.
+
+Theorem C02_turn_generated :
+  forall d v offers,
+  active (g_reach d v offers) =
+  if ended (hist (g_reach d v offers)) then None else Some (caller d (length (hist (g_reach d v offers)))).
+Proof. exact g_turn. Qed.
+Print Assumptions C02_turn_generated.
+
+Theorem C02_after_end_generated :
+  forall s c, active s = None -> g_take_bid s c = (s, Raises).
+Proof. exact g_after_end. Qed.
+Print Assumptions C02_after_end_generated.
 
